@@ -147,7 +147,9 @@ def run(tier: str) -> int:
     for d, Q in core.query_classes().items():
         ld = core.lex_dialect(d)
         for h in hs:
-            for pos in (POSITIONS if h["kind"] == "select" else ["top"]):
+            # (three value-bearing clauses: two positions instead of six - the whole product does not fit into memory beside the 16 judges)
+            deep = len(h["hist"]) - {"select": 2, "insert": 1, "upsert": 3, "update": 2}.get(h["kind"], 2) >= 3
+            for pos in ((["top", "subquery-in"] if deep else POSITIONS) if h["kind"] == "select" else ["top"]):
                 if h["kind"] == "upsert" and not any(c["m"] in ("do_update", "do_nothing") for c in h["hist"]):
                     continue  # ON CONFLICT without a handler is rejected at render time (C14)
                 if d == "mssql" and ('"arr"' in json.dumps(h["hist"]) or '"arrn"' in json.dumps(h["hist"])):
